@@ -32,6 +32,15 @@ VMerge(ev) ==
   LET want == SemMerge(ev[2], ev[3]) r == ev[4] IN
   IF {r[i][1] : i \in DOMAIN r} # DOMAIN want \/ Len(r) # Cardinality(DOMAIN want) THEN "merge:keys"
   ELSE Ok(\A i \in DOMAIN r : r[i][2] = want[r[i][1]], "merge:sorted-union")
+(* ["gffmerge", children = <<attributes of one child as <<key, values>>...>>..., result <<key, values>>...] : the level-1
+   children of a top-level non-gene GFF3 feature are combined into one feature interval whose qualifiers are the key-wise
+   sorted union of ALL the children's (2, 3, 4 ... children: the fold must carry its running result) *)
+VGffMerge(ev) ==
+  LET ch == ev[2] r == ev[3]
+      keys == UNION {KeysOf(ch[i]) : i \in DOMAIN ch}
+      want == [k \in keys |-> SetToSortSeq(UNION {ValsOf(ch[i], k) : i \in DOMAIN ch}, <)] IN
+  IF {r[i][1] : i \in DOMAIN r} # keys \/ Len(r) # Cardinality(keys) THEN "gff-children-merge:keys"
+  ELSE Ok(\A i \in DOMAIN r : r[i][2] = want[r[i][1]], "gff-children-merge:sorted-union")
 (* ["perm", projections] : one parse result per permutation of the records of one GenBank file *)
 VPerm(ev) == IF \E i \in DOMAIN ev[2] : ev[2][i][1] = "x" THEN "grouping:parse-failed"
              ELSE Ok(Cardinality({ev[2][i] : i \in DOMAIN ev[2]}) = 1, "grouping:order-independent")
@@ -74,7 +83,7 @@ VExport(ev) ==
   ELSE IF \E i \in DOMAIN ch : AsMap(ch[i][3]) # WantExport(P, ch[i][1], ch[i][2]) THEN "export:key-wise-union"
   ELSE "ok"
 
-Verdict(ev) == CASE ev[1] = "export" -> VExport(ev) [] ev[1] = "gffpick" -> VGffPick(ev) [] ev[1] = "pick" -> VPick(ev) [] ev[1] = "types" -> VTypes(ev) [] ev[1] = "merge" -> VMerge(ev)
+Verdict(ev) == CASE ev[1] = "export" -> VExport(ev) [] ev[1] = "gffpick" -> VGffPick(ev) [] ev[1] = "pick" -> VPick(ev) [] ev[1] = "types" -> VTypes(ev) [] ev[1] = "merge" -> VMerge(ev) [] ev[1] = "gffmerge" -> VGffMerge(ev)
                  [] ev[1] = "perm" -> VPerm(ev) [] OTHER -> "unknown-op"
 Bad == {i \in DOMAIN Trace : Verdict(Trace[i]) # "ok"}
 ASSUME \A i \in Bad : PrintT(<<"BAD", i, Verdict(Trace[i])>>)
